@@ -1,6 +1,7 @@
 package vk
 
 import (
+	"bufio"
 	"bytes"
 	"fmt"
 	"io"
@@ -10,6 +11,7 @@ import (
 
 	"github.com/gofiber/fiber/v3"
 	"github.com/valyala/fasthttp"
+	"github.com/valyala/fasthttp/fasthttputil"
 )
 
 // Do dispatches one request in process (no wire parsing). uri must be a path (+ optional query) not starting with "//".
@@ -141,3 +143,47 @@ func eqFold(a, b string) bool {
 }
 
 var _ = io.EOF
+
+// KeepAlive serves app on one persistent in-memory connection: every request of a history is parsed into the same
+// server-side RequestCtx (as on a real keep-alive connection shared by a proxy), so strings that alias request buffers
+// and are kept across requests change under their owner's feet.
+type KeepAlive struct {
+	c    net.Conn
+	br   *bufio.Reader
+	done chan struct{}
+}
+
+func NewKeepAlive(app *fiber.App) *KeepAlive {
+	app.Handler()
+	pc := fasthttputil.NewPipeConns()
+	k := &KeepAlive{c: pc.Conn1(), done: make(chan struct{})}
+	k.br = bufio.NewReader(k.c)
+	srv := pc.Conn2()
+	go func() {
+		defer close(k.done)
+		_ = app.Server().ServeConn(srv)
+	}()
+	return k
+}
+
+// Do sends one request (built by Req) and reads one response.
+func (k *KeepAlive) Do(raw []byte, head bool) (*fasthttp.Response, error) {
+	if _, err := k.c.Write(raw); err != nil {
+		return nil, err
+	}
+	resp := &fasthttp.Response{}
+	resp.SkipBody = head
+	_ = k.c.SetReadDeadline(time.Now().Add(20 * time.Second))
+	if err := resp.Read(k.br); err != nil {
+		return nil, err
+	}
+	return resp, nil
+}
+
+func (k *KeepAlive) Close() {
+	_ = k.c.Close()
+	select {
+	case <-k.done:
+	case <-time.After(5 * time.Second):
+	}
+}
